@@ -290,17 +290,21 @@ pub fn plan_strategy(n: usize) -> BoxedStrategy<IdPlan> {
             prop::collection::vec(any::<u16>(), 0..=n),
             prop::collection::vec(prop_oneof![4 => Just(0u8), 2 => Just(1u8), 1 => Just(2u8)], 0..=n)
         )
-            .prop_map(|(order, gaps)| IdPlan { order, gaps }),
+            .prop_map(|(order, gaps)| IdPlan { order, gaps, edge_order: 0 }),
         // every name congruent modulo 32 / 64 / 128 / 256
         1 => (prop::collection::vec(any::<u16>(), 0..=n), prop_oneof![3 => Just(3u8), 1 => Just(4u8), 1 => Just(5u8), 1 => Just(6u8)])
-            .prop_map(move |(order, code)| IdPlan { order, gaps: vec![code; n.max(1)] }),
+            .prop_map(move |(order, code)| IdPlan { order, gaps: vec![code; n.max(1)], edge_order: 0 }),
         // long irregular strides
         1 => (
             prop::collection::vec(any::<u16>(), 0..=n),
             prop::collection::vec(prop_oneof![4 => Just(0u8), 1 => Just(1u8), 2 => Just(3u8), 1 => Just(7u8), 1 => Just(8u8), 1 => Just(4u8)], 0..=n)
         )
-            .prop_map(|(order, gaps)| IdPlan { order, gaps }),
+            .prop_map(|(order, gaps)| IdPlan { order, gaps, edge_order: 0 }),
     ]
+    .prop_flat_map(|plan| {
+        // independently of the names: shuffled edge insertion order for half of the cases
+        prop_oneof![Just(0u64), any::<u64>()].prop_map(move |edge_order| IdPlan { edge_order, ..plan.clone() })
+    })
     .boxed()
 }
 
